@@ -20,6 +20,9 @@ CORPUS = [
     ("", "SELECT a IN (1)"),
     ("", "SELECT f(a)"),
     ("", "SELECT (a)"),
+    # a unary operator applied to a function that the parser rewrites into an operator / a CASE
+    ("", "SELECT -MOD(a, 2)"),
+    ("", "SELECT NOT IF(a, b, c)"),
     ("", "SELECT a BETWEEN 1 AND 2"),
     ("", "SELECT CASE WHEN a THEN 1 END"),
     ("", "SELECT CAST(a AS INT)"),
